@@ -29,8 +29,9 @@ Theorem C05_dependencies_first : forall (g : nat -> list nat) roots fuel vis out
 Proof. exact topo_deps_first. Qed.
 
 Theorem C05_code_follows_the_dfs_and_drains_messages_first :
-  visit_wf DepsGraph_visit = true /\ drains_before_events hot_reloading_thread = true.
-Proof. exact (conj visit_marks_before_recursing cache_messages_first). Qed.
+  visit_wf DepsGraph_visit = true /\ drains_before_events hot_reloading_thread = true /\
+  insert_wf DepsGraph_insert = true.
+Proof. exact (conj visit_marks_before_recursing (conj cache_messages_first graph_insert_as_modelled)). Qed.
 
 (* L2 *)
 Theorem C05_pass_restores_consistency : forall (F : loader) (s s' : src) (order : list A) (c0 : st),
